@@ -87,7 +87,7 @@ var baseProfile = profile{
 	width:      100,
 	staleP:     25,
 	policies:   []string{"none", "light", "light", "heavy", "targeted"},
-	targets:    []string{"hm.push", "hm.req", "dist.collected", "bar.exit", "early.refresh", "flush.bar", "render.requested", "bar.trigger"},
+	targets:    []string{"hm.push", "hm.req", "dist.collected", "bar.exit", "early.refresh", "flush.bar", "render.requested", "bar.trigger", "bar.op", "bar.op"},
 }
 
 var trigPoints = []string{"render.begin", "render.requested", "flush.bar", "flush.write", "hm.req", "hm.push", "dist.collected", "bar.exit", "bar.render.terminal", "early.refresh", "bar.trigger", "add", "render.end"}
